@@ -85,6 +85,9 @@ const NAMES: &[&str] = &[
     "fork_by_ref", "fork_by_rc_steady", "buffered_next", "buffered_frames", "sig_rms", "sig_env",
     "graph_stock", "graph_small_cap", "graph_stable", "graph_nested",
     "bus_lockstep", "bus_laggard", "boxed_slice_ok", "boxed_slice_fail",
+    "ring_bounded_index", "ring_bounded_raw", "frame_channels_mut", "interp_direct", "lift", "conv_source_access",
+    "rectifier_structs", "window_direct", "slice_trait_forms",
+    "bus_drop_caught_up", "bus_drop_laggard", "bus_reattach", "graph_fan_in_1500", "graph_chain_1500", "graph_alternating_outputs",
 ];
 
 fn run(name: &str, k: usize, seed: u64) -> Vec<i64> {
@@ -655,6 +658,211 @@ fn run(name: &str, k: usize, seed: u64) -> Vec<i64> {
             let f: Option<Box<[[i16; 3]]>> = slice::to_boxed_frame_slice(b);
             black_box(f.is_none());
         }),
+
+        "ring_bounded_index" => {
+            let mut rb = ring_buffer::Bounded::from_full(vec![0i32; 6]);
+            measure(k, |i| {
+                rb[i % 6] = r.next() as i32;
+                black_box(rb[(i + 1) % 6]);
+                rb.pop();
+                rb.push(i as i32);
+                let n = rb.len();
+                rb[n - 1] += 1;
+            })
+        }
+        "ring_bounded_raw" => {
+            let mut store = vec![0i32; 12];
+            measure(k, |i| {
+                let cap = 1 + i % 12;
+                let start = i % cap;
+                let len = (i / 3) % (cap + 1);
+                let mut rb = ring_buffer::Bounded::from_raw_parts(start, len, &mut store[..cap]);
+                black_box(rb.push(i as i32));
+                black_box(rb.pop());
+                black_box(rb.iter().count());
+                let (a, b) = rb.slices();
+                black_box(a.len() + b.len());
+                let mut fx = ring_buffer::Fixed::from_raw_parts(start, &mut store[..cap]);
+                black_box(fx.push(1));
+                black_box(fx.iter().count());
+            })
+        }
+        "frame_channels_mut" => measure(k, |i| {
+            let mut f = [r.i16(), r.i16(), i as i16];
+            for c in f.channels_mut() {
+                *c = c.wrapping_add(1);
+            }
+            black_box(f.channels_ref().count());
+            if let Some(c) = f.channel_mut(i % 4) {
+                *c = 0;
+            }
+            black_box(unsafe { *f.channel_unchecked(i % 3) });
+            black_box(f);
+        }),
+        "interp_direct" => {
+            use dasp_interpolate::Interpolator;
+            let mut fl = Floor::new([0.0f64; 2]);
+            let mut li = Linear::new([0i16; 1], [0i16; 1]);
+            let mut si = Sinc::new(ring_buffer::Fixed::from([[0.0f32; 1]; 8]));
+            measure(k, |i| {
+                fl.next_source_frame([r.f(), r.f()]);
+                li.next_source_frame([r.i16()]);
+                si.next_source_frame([r.f() as f32]);
+                let x = (i % 17) as f64 / 17.0;
+                black_box(fl.interpolate(x));
+                black_box(li.interpolate(x));
+                black_box(si.interpolate(x));
+                if i % 29 == 0 {
+                    fl.reset();
+                    li.reset();
+                    si.reset();
+                }
+            })
+        }
+        "lift" => {
+            let frames: Vec<[i16; 1]> = (0..30).map(|i| [i]).collect();
+            measure(k, |i| {
+                let it = signal::lift(frames.iter().cloned(), |s| s.offset_amp(i as i16 % 5).delay(i % 3));
+                black_box(it.count());
+            })
+        }
+        "conv_source_access" => {
+            let src = signal::gen_mut(|| [r.f()]);
+            let mut c = src.scale_hz(Linear::new([0.0], [0.0]), 0.7);
+            measure(k, |_| {
+                black_box(c.next());
+                black_box(c.source_mut().next());
+                black_box(c.source().is_exhausted());
+            })
+        }
+        "rectifier_structs" => {
+            use dasp_peak::Rectifier;
+            measure(k, |_| {
+                let f = [r.i16() / 2, r.i16() / 2];
+                black_box(dasp_peak::FullWave.rectify(f));
+                black_box(dasp_peak::PositiveHalfWave.rectify(f));
+                black_box(dasp_peak::NegativeHalfWave.rectify(f));
+            })
+        }
+        "window_direct" => {
+            use dasp_window::Window as WindowFn;
+            measure(k, |i| {
+                let p = (i % 101) as f64 / 101.0;
+                black_box(<dasp_window::Hann as WindowFn<f64>>::window(p));
+                black_box(<dasp_window::Rectangle as WindowFn<f64>>::window(p));
+                black_box(<dasp_window::Hann as WindowFn<f32>>::window(p as f32));
+            })
+        }
+        "slice_trait_forms" => {
+            use dasp_slice::{FromFrameSlice, FromSampleSlice, ToFrameSlice, ToSampleSlice};
+            let samples = vec![0.5f32; 60];
+            measure(k, |i| {
+                let f: Option<&[[f32; 3]]> = FromSampleSlice::from_sample_slice(&samples[..]);
+                black_box(f.map(|x| x.len()));
+                let f4: Option<&[[f32; 4]]> = (&samples[..(i % 60)]).to_frame_slice();
+                if let Some(fr) = f4 {
+                    let s: &[f32] = fr.to_sample_slice();
+                    black_box(s.len());
+                    let s2: &[f32] = FromFrameSlice::from_frame_slice(fr);
+                    black_box(s2.len());
+                }
+            })
+        }
+        "bus_drop_caught_up" | "bus_drop_laggard" | "bus_reattach" => {
+            let src = signal::gen_mut(|| [r.f()]);
+            let bus = src.bus();
+            let mut a = bus.send();
+            let mut b = bus.send();
+            let c = bus.send();
+            let mut c = Some(c);
+            // warm up: everybody pulls some frames
+            for _ in 0..8 {
+                black_box(a.next());
+                black_box(b.next());
+                black_box(c.as_mut().unwrap().next());
+            }
+            match name {
+                "bus_drop_caught_up" => {
+                    c.take(); // dropped exactly when all outputs have caught up
+                }
+                "bus_drop_laggard" => {
+                    for _ in 0..5 {
+                        black_box(a.next());
+                        black_box(b.next());
+                    }
+                    c.take(); // the slowest output is dropped while the backlog holds its frames
+                }
+                _ => {}
+            }
+            let mut maxb = 0usize;
+            let mut extra: Option<dasp_signal::bus::Output<_>> = None;
+            let mut v = measure(k, |i| {
+                black_box(a.next());
+                black_box(b.next());
+                if let Some(cc) = c.as_mut() {
+                    black_box(cc.next());
+                }
+                if name == "bus_reattach" && i % 64 == 0 {
+                    // periodically replace an output by a freshly attached one (send/drop allocate by
+                    // design; what must stay bounded is the backlog)
+                    extra = Some(bus.send());
+                }
+                if let Some(e) = extra.as_mut() {
+                    black_box(e.next());
+                }
+                maxb = maxb.max(bus.verif_backlog_len());
+            });
+            v.push(maxb as i64);
+            v.push(bus.verif_backlog_len() as i64);
+            v
+        }
+        "graph_fan_in_1500" | "graph_chain_1500" => {
+            type G = petgraph::graph::DiGraph<NodeData<BoxedNode>, ()>;
+            let n = 1500usize;
+            let mut g: G = petgraph::graph::DiGraph::with_capacity(n + 2, n + 2);
+            let out = g.add_node(NodeData::new1(BoxedNode::new(node::Sum)));
+            let mut prev = out;
+            for _ in 0..n {
+                let s = g.add_node(NodeData::new1(BoxedNode::new(node::Pass)));
+                if name == "graph_fan_in_1500" {
+                    g.add_edge(s, out, ());
+                } else {
+                    g.add_edge(s, prev, ());
+                    prev = s;
+                }
+            }
+            let mut p: Processor<G> = Processor::with_capacity(n + 2);
+            p.process(&mut g, out);
+            let caps1 = p.verif_capacities();
+            let mut v = measure(k.min(40), |_| {
+                p.process(&mut g, out);
+            });
+            let caps2 = p.verif_capacities();
+            v.extend_from_slice(&[caps1.0 as i64, caps1.1 as i64, caps2.0 as i64, caps2.1 as i64]);
+            v
+        }
+        "graph_alternating_outputs" => {
+            // one processor, process calls alternating between a small and a large upstream cone
+            type G = petgraph::graph::DiGraph<NodeData<BoxedNode>, ()>;
+            let mut g: G = petgraph::graph::DiGraph::new();
+            let small = g.add_node(NodeData::new1(BoxedNode::new(node::Sum)));
+            let big = g.add_node(NodeData::new1(BoxedNode::new(node::Sum)));
+            g.add_edge(small, big, ());
+            for _ in 0..40 {
+                let s = g.add_node(NodeData::new1(BoxedNode::new(node::Pass)));
+                g.add_edge(s, big, ());
+            }
+            let mut p: Processor<G> = Processor::with_capacity(4);
+            p.process(&mut g, big);
+            p.process(&mut g, small);
+            let caps1 = p.verif_capacities();
+            let mut v = measure(k, |i| {
+                p.process(&mut g, if i % 2 == 0 { small } else { big });
+            });
+            let caps2 = p.verif_capacities();
+            v.extend_from_slice(&[caps1.0 as i64, caps1.1 as i64, caps2.0 as i64, caps2.1 as i64]);
+            v
+        }
         _ => vec![-1],
     }
 }
